@@ -488,6 +488,14 @@ func (c *tupleCol) Row(i int) any {
 // Tuple(e1, e2, ...).
 func Tuple(es ...Kind) Kind { return &tupleKind{es: es} }
 
+// Named is an element of a named tuple ("name Type"): proto.ColNamed around the element's column.
+func Named[T any](e *kindOf[T], name string) *kindOf[T] {
+	n := *e
+	n.name = name + " " + e.name
+	n.newCol = func() proto.ColumnOf[T] { return proto.Named[T](e.newCol(), name) }
+	return &n
+}
+
 // rawKind adapts a column that is not a ColumnOf its raw element type (Date, DateTime...): values are
 // appended and read as raw integers.
 type rawKind struct {
